@@ -97,7 +97,12 @@ def gen_program(rng, pid, profile):
         if pr.get("rec") and p == 1:
             objs = [1, 3, 4, 6, 8]
             o = rng.choice(objs)
-            code = ["rec %d 1" % o] + code[:5] + ["hold %d" % rng.randint(1, 3), "rec %d 0" % o]
+            if rng.random() < 0.5:
+                code = ["rec %d 1" % o] + code[:5] + ["hold %d" % rng.randint(1, 3), "rec %d 0" % o]
+            else:
+                # recording begins (and ends) somewhere in the middle: others may be blocked inside a call on the object
+                k = rng.randint(0, min(3, len(code)))
+                code = (["hold %d" % rng.choice([0, 1])] if rng.random() < 0.5 else []) + code[:k] + ["rec %d 1" % o] + code[k:k + 4] + ["hold %d" % rng.randint(1, 3), "rec %d 0" % o]
         auto = 1 if (p == 1 or rng.random() < 0.85) else 0
         lines.append("proc %d %d %d : %s" % (p, rng.choice([0, 0, 0, 1, 2]), auto, " ; ".join(code)))
     for e in range(1, pr.get("uev", 0) + 1):
